@@ -68,7 +68,16 @@ def build_class(desc):
                 fs.append((nm, object, dataclasses.field(default=default, repr=rp)))
             else:
                 fs.append((nm, object, dataclasses.field(default_factory=FACTORIES[fi], repr=rp)))
+        # pseudo-fields that are not fields: a ClassVar whose current value differs from its declared default, an InitVar with a default
+        import typing
+        h = sum(map(ord, name)) + len(fields)
+        if h % 3 == 0:
+            fs.append(('class_level_counter', typing.ClassVar[int], 0))
+        if h % 4 == 1:
+            fs.append(('init_only', dataclasses.InitVar[int], 0))
         cls = dataclasses.make_dataclass(name, fs, frozen=frozen, slots=slots)
+        if h % 3 == 0:
+            cls.class_level_counter = 7
     else:
         at = {}
         for (nm, how, default, fi, rp) in fields:
@@ -191,6 +200,6 @@ def extras_section(tier, seed):
             fails.extend(ff)
     stats = {'evaluations': tot, 'distinct_nontrivial': nt, 'class_definitions': total, 'mismatches': len(mism),
              'samples': [{'class': gen_class(random.Random(seed * 100003 + 3), 3)}],
-             'rule': 'generated dataclass / attrs class definitions (0-4 fields incl. names ctx and fn; no default / default / default_factory; repr flags; frozen / slots) '
+             'rule': 'generated dataclass / attrs class definitions (0-4 fields incl. names ctx and fn; no default / default / default_factory; repr flags; frozen / slots; ClassVar with a changed value and InitVar pseudo-fields) '
                      'x 3 instances x {alone, in a list} x layouts; model = the call the property prescribes; oracle: no failure warning, eval rebuilds an equal instance'}
     return stats, mism, fails
